@@ -170,6 +170,14 @@ Entries(NestClasses, NameCls, ContCls) ==
     {FileEntry(d, n, c) : d \in DirPaths(NestClasses), n \in NameCls, c \in ContCls}
     \cup {DirEntry(d, x) : d \in {p \in DirPaths(NestClasses) : Len(p) <= 1}, x \in DirNameClasses}
 
+\* Where the snippets directory itself lives and how its path is spelled is NOT part of a key: keys and
+\* hiddenness are relative to the directory. The same tree must load the same way under every root kind:
+\*   plain            <work>/sn
+\*   hidden_ancestor  <work>/.cache/sn          (a hidden directory ABOVE the snippets directory)
+\*   hidden_self      <work>/.sn                (the snippets directory itself is hidden)
+\*   dotdot           <work>/sub/../sn          (the path is spelled with a ".." component)
+RootKinds == {"plain", "hidden_ancestor", "hidden_self", "dotdot"}
+
 FullPath(e) == Parts(e)
 \* no two entries at the same path, no entry at a path that is a directory of another one
 Consistent(T) ==
